@@ -459,16 +459,56 @@ func litsString(l []alit) string {
 	return strings.Join(out, " ∧ ")
 }
 
-// antisymmetric decides cmp(a, b) = -cmp(b, a) for the function literal.
-func (a *Analyzer) antisymmetric(info *types.Info, fl *ast.FuncLit, params []types.Object) (bool, string) {
+// identifying: x and y are the two elements themselves or the same identity-like projection of them.
+func identifying(x, y string) bool {
+	for proj := range projections {
+		suffix := ""
+		if proj != "" {
+			suffix = "." + proj + "()"
+		}
+		if (x == "§a"+suffix && y == "§b"+suffix) || (x == "§b"+suffix && y == "§a"+suffix) {
+			return true
+		}
+	}
+	return false
+}
+
+// comparatorPaths unfolds the comparator; decides totality (no path returns 0 for different elements)
+// and antisymmetry on the same paths.
+func (a *Analyzer) comparatorPaths(info *types.Info, fl *ast.FuncLit, params []types.Object) (bool, string) {
 	s := &asym{a: a, info: info, pa: params[0], pb: params[1], env: map[types.Object]string{}, bind: map[types.Object]string{}}
 	paths := s.block(fl.Body.List, [][]alit{{}}, nil)
 	if s.err != "" {
-		return false, "antisymmetry of the comparator cannot be decided: " + s.err
+		return false, "the comparator cannot be unfolded into paths: " + s.err
 	}
 	if len(paths) == 0 {
-		return false, "antisymmetry of the comparator cannot be decided: no return found"
+		return false, "the comparator cannot be unfolded into paths: no return found"
 	}
+	for _, p := range paths {
+		switch p.res.kind {
+		case "const":
+			if p.res.c == 0 {
+				return false, "returns the constant 0 when " + litsString(p.lits)
+			}
+		default:
+			if identifying(p.res.x, p.res.y) {
+				continue
+			}
+			distinct := false
+			for _, l := range p.lits {
+				if !l.pos && l.atom == eqAtom(p.res.x, p.res.y) {
+					distinct = true
+				}
+			}
+			if !distinct {
+				return false, fmt.Sprintf("may return 0 from %s for different elements (when %s): equal keys leave their order to the order of arrival", p.res, litsString(p.lits))
+			}
+		}
+	}
+	return a.antisymPaths(paths)
+}
+
+func (a *Analyzer) antisymPaths(paths []apath) (bool, string) {
 	for _, p := range paths {
 		for _, q := range paths {
 			var both []alit
